@@ -7,7 +7,7 @@ MaxCallsDef == ToNatS(IOEnv.MAXCALLS, 1, 0)
 EveryDef == ToNatS(IOEnv.EVERY, 1, 0)
 OffsetDef == ToNatS(IOEnv.OFFSET, 1, 0)
 AllOps == {"SetTemplate", "AddUnitSystem", "RemoveUnitSystem", "SetCurrent", "SetDefaultUnit", "RemoveCategory", "GetNewId",
-           "GetCategoryDefaultUnit", "GetCurrentId", "ConvertToCurrent", "ConvertScalarToCurrent"}
+           "GetCategoryDefaultUnit", "GetCurrentId", "GetUnitSystemById", "GetQuantityDefaultUnit", "ConvertToCurrent", "ConvertScalarToCurrent"}
 OpsDef == IF IOEnv.OPS = "mut" THEN {"SetTemplate", "AddUnitSystem", "RemoveUnitSystem", "SetCurrent", "SetDefaultUnit", "RemoveCategory"}
           ELSE AllOps
 TypeDef == [x \in {"length", "depth", "time", "m", "cm", "s", "min"} |-> IF x \in {"length", "depth", "m", "cm"} THEN "length" ELSE "time"]
